@@ -2,7 +2,9 @@ package c10
 
 import (
 	"encoding/binary"
+	"encoding/json"
 	"fmt"
+	"sort"
 	"strings"
 
 	"pgregory.net/rapid"
@@ -507,6 +509,11 @@ func deepJSON(d int, open, close string, core string) []byte {
 // jsonOne applies one mutation to a JSON text. shaped: the result is still meant to be
 // syntactically valid JSON (so the hostile part reaches the type's own unmarshalers).
 func (m *mut) jsonOne(s []byte) (out []byte, shaped bool) {
+	if m.intn(6, "jmember") == 0 {
+		if out, ok := m.jsonMember(s); ok {
+			return out, true
+		}
+	}
 	toks := jsonTokens(s)
 	pick := func(kinds string) (jtok, bool) {
 		var c []jtok
@@ -641,4 +648,74 @@ func (m *mut) mutateJSON(s []byte) (out []byte, shaped bool) {
 		out, shaped = next, shaped && sh
 	}
 	return out, shaped
+}
+
+// jsonMember is a structural mutation: one member of an object or one element of an array, at any depth and of any
+// kind (a whole sub-object such as a policy, a parent element, a resolution), is removed or replaced by null, an empty
+// object, an empty array, an empty string or 0. The result is valid JSON with a hole where a decoder expects
+// structure: what it decodes to (zero values, nil interfaces, nil pointers) is what validation sees next.
+func (m *mut) jsonMember(s []byte) ([]byte, bool) {
+	var doc any
+	dec := json.NewDecoder(strings.NewReader(string(s)))
+	dec.UseNumber()
+	if dec.Decode(&doc) != nil {
+		return nil, false
+	}
+	type slot struct {
+		obj map[string]any
+		key string
+		arr []any
+		idx int
+	}
+	var slots []slot
+	var walk func(v any)
+	walk = func(v any) {
+		switch x := v.(type) {
+		case map[string]any:
+			keys := make([]string, 0, len(x))
+			for k := range x {
+				keys = append(keys, k)
+			}
+			sort.Strings(keys)
+			for _, k := range keys {
+				slots = append(slots, slot{obj: x, key: k})
+				walk(x[k])
+			}
+		case []any:
+			for i := range x {
+				slots = append(slots, slot{arr: x, idx: i})
+				walk(x[i])
+			}
+		}
+	}
+	walk(doc)
+	if len(slots) == 0 {
+		return nil, false
+	}
+	sl := slots[m.intn(len(slots), "slot")]
+	repl := []any{nil, map[string]any{}, []any{}, "", json.Number("0")}
+	op := m.intn(len(repl)+1, "memberOp")
+	where := sl.key
+	if sl.obj == nil {
+		where = fmt.Sprintf("[%d]", sl.idx)
+	}
+	switch {
+	case op == len(repl) && sl.obj != nil:
+		delete(sl.obj, sl.key)
+		m.note("jmember-deleted %s", where)
+	case op == len(repl):
+		sl.arr[sl.idx] = nil
+		m.note("jmember %s=null", where)
+	case sl.obj != nil:
+		sl.obj[sl.key] = repl[op]
+		m.note("jmember %s=%v", where, repl[op])
+	default:
+		sl.arr[sl.idx] = repl[op]
+		m.note("jmember %s=%v", where, repl[op])
+	}
+	out, err := json.Marshal(doc)
+	if err != nil {
+		return nil, false
+	}
+	return out, true
 }
